@@ -211,6 +211,27 @@ pub fn judge_line(x: &Vec<u8>, st: &mut Stats) -> Verdict {
         Ok(t) => t,
         Err(_) => return Ok(()),
     };
+    // the FromStr route must give the same text
+    let mut from_str_text: Option<String> = None;
+    if let Ok(sx) = std::str::from_utf8(x) {
+        if let Ok(Ok(hs)) = imp::v1_fromstr_header(sx) {
+            from_str_text = Some(hs.to_string());
+            if hs.header.as_bytes() != &x[..p] {
+                from_str_text = Some(hs.header.to_string());
+            }
+        }
+    }
+    if let Some(t2) = &from_str_text {
+        if t2.as_bytes() != &x[..p] {
+            return Err(Fail::new(
+                "header-display:FromStr",
+                crate::oracle::v1::shape(x),
+                "str::parse::<v1::Header>().to_string()",
+                format!("{:?}", esc(&x[..p])),
+                format!("{:?}", esc(t2.as_bytes())),
+            ));
+        }
+    }
     if text.as_bytes() != &x[..p] || h.header.as_bytes() != &x[..p] {
         return Err(Fail::new(
             "header-display",
